@@ -336,6 +336,9 @@ fn run<G: Group>(sc: &Scenario, st: &mut RunStats) -> Vec<Violation> {
         if ns > 256 {
             st.fault("batch_over_chunk_limit");
         }
+        if ns > 256 && ns % 256 == 0 && nt == ns && np == ns {
+            st.fault("batch_size_multiple_of_chunk_limit");
+        }
         if ns > 1 {
             st.fault("batched");
         }
@@ -543,7 +546,7 @@ impl Check for C16 {
     }
 
     fn rule(&self) -> String {
-        "each seeded run delivers 24 hostile cases: proof shapes (extension tag 0..8/255, d1 count, rounds 0..9/31/32/33/63/64/65/200/2000 and fit+-1, length off by 1/31/32/33, element class valid/identity/undecodable/non-canonical/all-ones/random) x statement shapes (all configurations incl. capacity > m, promise 0/random/2^bits/u64::MAX, seed, identity commitments) x batch shapes (1..4 members of differing bits/ext/capacity, a member repeated across the 256 chunk limit, three sequences of unequal lengths, empty) x the three modes; honest proofs with 1-3 stacked channel faults; random byte strings of 0..4096 bytes; one evaluation = one guarded decode+construct step or one guarded verify_batch call; non-trivial = a batch-shape fault fired; distinct = distinct event-log hashes. Oracles: no panic (harness built with overflow checks), child process exits normally, allocation peak and (free module) scalar-point work linear in the input.".into()
+        "each seeded run delivers 24 hostile cases: proof shapes (extension tag 0..8/255, d1 count, rounds 0..9/31/32/33/63/64/65/200/2000 and fit+-1, length off by 1/31/32/33, element class valid/identity/undecodable/non-canonical/all-ones/random) x statement shapes (all configurations incl. capacity > m, promise 0/random/2^bits/u64::MAX, seed, identity commitments) x batch shapes (1..4 members of differing bits/ext/capacity, a member repeated across the 256 chunk limit, three sequences of unequal lengths, empty) x the three modes; honest proofs with 1-3 stacked channel faults; random byte strings of 0..4096 bytes; one evaluation = one guarded decode+construct step or one guarded verify_batch call; non-trivial = a batch-shape fault fired; distinct = distinct event-log hashes. Oracles: no panic (harness built with overflow checks), child process exits normally, allocation peak and (free module) scalar-point work linear in the input. Batch totals include exact multiples of the chunk limit (512; 768 and 1024 in the thorough tier).".into()
     }
 
     fn assumptions(&self) -> Vec<String> {
@@ -639,7 +642,12 @@ impl Check for C16 {
                 _ => (0, 0, 0),
             };
             let repeat_first = match rng.below(16) {
-                0 => *rng.pick(&[254usize, 255, 256, 257, 300]),
+                // totals around the chunk limit, and exact multiples of it (512; 768 and 1024 in the thorough tier)
+                0 => match rng.below(3) {
+                    0 => (if tier == Tier::Quick { 512usize } else { *rng.pick(&[512usize, 512, 768, 1024]) }) - n_members,
+                    1 => 256 - n_members,
+                    _ => *rng.pick(&[254usize, 255, 256, 257, 300, 511, 512]),
+                },
                 1 => rng.usize_below(8),
                 _ => 0,
             };
@@ -726,6 +734,7 @@ impl Check for C16 {
             "batch_length_mismatch",
             "batch_empty",
             "batch_over_chunk_limit",
+            "batch_size_multiple_of_chunk_limit",
             "batch_mixed_capacity",
             "batch_mixed_bits",
             "batch_mixed_ext",
